@@ -5,6 +5,7 @@ package kernel
 import (
 	"fmt"
 	"os"
+	"strings"
 	"testing"
 	"time"
 
@@ -21,6 +22,7 @@ type vpC16Asset struct {
 	cap   uint64 // whole coins the generator keeps finalized+pending deposits below (0 = unbounded default capacity)
 	used  uint64
 	name  string
+	bound bool // a deposit of this asset id has been finalized (its chain/key binding is on record)
 }
 
 type vpC16Env struct {
@@ -30,13 +32,101 @@ type vpC16Env struct {
 	clock  uint64
 	seq    int
 	assets []*vpC16Asset
-	// finalized single-key outputs available for transfers: tx and owner
+	// finalized single-key outputs available for spending
 	outs []vpC16Out
+	// withdrawal submits: finalized ones can be claimed
+	submits        []crypto.Hash
+	submitsPending []*common.VersionedTransaction
+}
+
+// noteFinalized updates the generator's bookkeeping for a finalized transaction.
+func (e *vpC16Env) noteFinalized(tx *common.VersionedTransaction) {
+	e.addOuts(tx)
+	if tx.DepositData() != nil {
+		for _, a := range e.assets {
+			if a.id == tx.Asset {
+				a.bound = true
+			}
+		}
+	}
+	for i, p := range e.submitsPending {
+		if p.PayloadHash() == tx.PayloadHash() {
+			e.submits = append(e.submits, tx.PayloadHash())
+			e.submitsPending = append(e.submitsPending[:i], e.submitsPending[i+1:]...)
+			break
+		}
+	}
 }
 
 type vpC16Out struct {
 	tx    *common.VersionedTransaction
 	owner int
+	idx   int // output index inside tx (single-key script outputs only)
+}
+
+// spend builds a transaction consuming the given finalized single-key outputs
+// (all of one asset), signed by their owners; outs fills in the outputs and
+// gets the input total.
+func (e *vpC16Env) spend(ins []vpC16Out, refs []crypto.Hash, extra []byte, outs func(tx *common.Transaction, total common.Integer)) *common.VersionedTransaction {
+	tx := common.NewTransactionV5(ins[0].tx.Asset)
+	var total common.Integer
+	for i, in := range ins {
+		tx.AddInput(in.tx.PayloadHash(), uint(in.idx))
+		if i == 0 {
+			total = in.tx.Outputs[in.idx].Amount
+		} else {
+			total = total.Add(in.tx.Outputs[in.idx].Amount)
+		}
+	}
+	outs(tx, total)
+	tx.References = refs
+	tx.Extra = extra
+	signed := &common.SignedTransaction{Transaction: *tx}
+	msg := tx.AsVersioned().PayloadHash()
+	for _, in := range ins {
+		po := in.tx.Outputs[in.idx]
+		a := &e.net.Accts[in.owner]
+		priv := crypto.DeriveGhostPrivateKey(&po.Mask, &a.PrivateViewKey, &a.PrivateSpendKey, uint64(in.idx))
+		sig := priv.Sign(msg)
+		signed.SignaturesMap = append(signed.SignaturesMap, map[uint16]*crypto.Signature{0: &sig})
+	}
+	return signed.AsVersioned()
+}
+
+// addOuts registers the single-key script outputs of a finalized transaction.
+func (e *vpC16Env) addOuts(tx *common.VersionedTransaction) {
+	for i, o := range tx.Outputs {
+		if o.Type != common.OutputTypeScript || len(o.Keys) != 1 {
+			continue
+		}
+		for ai := range e.net.Accts {
+			a := &e.net.Accts[ai]
+			if pub := crypto.ViewGhostOutputKey(o.Keys[0], &a.PrivateViewKey, &o.Mask, uint64(i)); *pub == a.PublicSpendKey {
+				e.outs = append(e.outs, vpC16Out{tx: tx, owner: ai, idx: i})
+				break
+			}
+		}
+	}
+}
+
+// takeOuts removes and returns up to n pool outputs of one asset.
+func (e *vpC16Env) takeOuts(t *rapid.T, n int, asset *crypto.Hash) []vpC16Out {
+	var picked []vpC16Out
+	for len(picked) < n {
+		var cand []int
+		for i, o := range e.outs {
+			if (asset == nil || o.tx.Asset == *asset) && (len(picked) == 0 || o.tx.Asset == picked[0].tx.Asset) {
+				cand = append(cand, i)
+			}
+		}
+		if len(cand) == 0 {
+			break
+		}
+		k := cand[rapid.IntRange(0, len(cand)-1).Draw(t, "take")]
+		picked = append(picked, e.outs[k])
+		e.outs = append(e.outs[:k], e.outs[k+1:]...)
+	}
+	return picked
 }
 
 func vpC16Start(tag string) *vpC16Env {
@@ -106,8 +196,8 @@ func (e *vpC16Env) finalize(s *common.Snapshot, txs []*common.VersionedTransacti
 }
 
 func TestVP_C16_validated_finalizes(t *testing.T) {
-	c := kit.New(t, "C16", "rapid: histories of 6..20 snapshots on a real node (7 chains, round transitions): each snapshot batches 1..4 pending transactions (deposits of XIN / BTC (capacity 2500, amounts up to 1200 so the cap is reachable) / an unlisted asset, several deposits of one asset pending at once, transfers of finalized outputs); every member is pushed through the node's own validateSnapshotTransaction (ordinary path first for 'pending' snapshots that are finalized later, finalization path otherwise); oracle: validation passed for every member => the finalization path writes the snapshot without error or panic and it becomes readable; the listed known-finding classes (pending+finalized deposits reaching capacity; contradicting asset bindings pending together) are excluded by construction and counted; non-trivial = snapshot with >=2 members or >=2 deposits of one asset pending across consecutive snapshots; distinct by snapshot hash")
-	c.Require("batch>=2", "pending-deposits-same-asset", "transfer", "late-finalize", "near-capacity")
+	c := kit.New(t, "C16", "rapid: histories of 6..20 snapshots on a real node (7 chains, round transitions): each snapshot batches 1..4 pending transactions (deposits of XIN / BTC (capacity 2500, amounts up to 1200 so the cap is reachable) / an unlisted asset, several deposits of one asset pending at once; deposits naming a bound asset id with altered chain/key text, which validation may refuse; transfers with 1..3 inputs and outputs of finalized outputs at any output index; withdrawal submits with and without change, repeatedly on one asset; withdrawal claims of finalized submits); every member is pushed through the node's own validateSnapshotTransaction (ordinary path first for 'pending' snapshots that are finalized later, finalization path otherwise); oracle: validation passed for every member => the finalization path writes the snapshot without error or panic and it becomes readable; the listed known-finding classes (pending+finalized deposits reaching capacity; contradicting asset bindings pending together) are excluded by construction and counted; non-trivial = snapshot with >=2 members or >=2 deposits of one asset pending across consecutive snapshots; distinct by snapshot hash")
+	c.Require("batch>=2", "pending-deposits-same-asset", "transfer", "transfer-multi-input", "submit", "submit-with-change", "claim", "deposit-info-variant", "late-finalize", "near-capacity")
 	kit.SetChecks(kit.N(25, 900))
 	rapid.Check(t, func(t *rapid.T) {
 		e := vpC16Start("c16")
@@ -132,7 +222,7 @@ func TestVP_C16_validated_finalizes(t *testing.T) {
 						pendDeposits[tx.Asset]--
 					}
 					if fin {
-						e.outs = append(e.outs, vpC16Out{tx, vpC16Owner(e, tx)})
+						e.noteFinalized(tx)
 					}
 				}
 				c.Case(s.Hash.String(), true, "late-finalize")
@@ -143,14 +233,69 @@ func TestVP_C16_validated_finalizes(t *testing.T) {
 			var txs []*common.VersionedTransaction
 			var cl []string
 			sameAssetPending := false
+			freeform := false
 			for m := 0; m < n; m++ {
 				e.seq++
-				if len(e.outs) > 0 && rapid.IntRange(0, 2).Draw(t, "member_kind") == 0 {
-					k := rapid.IntRange(0, len(e.outs)-1).Draw(t, "spend")
-					o := e.outs[k]
-					e.outs = append(e.outs[:k], e.outs[k+1:]...)
-					txs = append(txs, e.net.Transfer(o.tx, o.owner, []int{rapid.IntRange(0, 3).Draw(t, "to"), rapid.IntRange(0, 3).Draw(t, "to2")}, e.seq, nil, nil))
-					cl = append(cl, "transfer")
+				if kind := rapid.IntRange(0, 8).Draw(t, "member_kind"); len(e.outs) > 0 && kind <= 4 {
+					acct := func(label string) *common.Address { return &e.net.Accts[rapid.IntRange(0, 3).Draw(t, label)] }
+					switch {
+					case kind <= 1: // transfer: 1..3 inputs of one asset into 1..3 outputs
+						ins := e.takeOuts(t, rapid.IntRange(1, 3).Draw(t, "nin"), nil)
+						nout := rapid.IntRange(1, 3).Draw(t, "nout")
+						txs = append(txs, e.spend(ins, nil, nil, func(tx *common.Transaction, total common.Integer) {
+							rest := total
+							for k := 0; k < nout; k++ {
+								amt := rest
+								if k < nout-1 {
+									amt = total.Div(nout + 1)
+									if amt.Sign() <= 0 {
+										continue
+									}
+									rest = rest.Sub(amt)
+								}
+								tx.AddOutputWithType(common.OutputTypeScript, []*common.Address{acct("to")}, common.NewThresholdScript(1), amt, vpKSeed("c16-tr", e.seq, k))
+							}
+						}))
+						cl = append(cl, "transfer")
+						if len(ins) >= 2 {
+							cl = append(cl, "transfer-multi-input")
+						}
+					case kind <= 3: // withdrawal submit, mostly with a change output
+						ins := e.takeOuts(t, rapid.IntRange(1, 2).Draw(t, "nin"), nil)
+						withChange := rapid.IntRange(0, 3).Draw(t, "change") != 0
+						txs = append(txs, e.spend(ins, nil, nil, func(tx *common.Transaction, total common.Integer) {
+							w := total
+							if part := total.Div(rapid.IntRange(2, 10).Draw(t, "withdraw_part")); withChange && part.Sign() > 0 {
+								w = part
+							}
+							tx.Outputs = append(tx.Outputs, &common.Output{Type: common.OutputTypeWithdrawalSubmit, Amount: w, Withdrawal: &common.WithdrawalData{Address: fmt.Sprintf("addr-%d", e.seq), Tag: "t"}})
+							if w.Cmp(total) < 0 {
+								tx.AddOutputWithType(common.OutputTypeScript, []*common.Address{acct("change_to")}, common.NewThresholdScript(1), total.Sub(w), vpKSeed("c16-ch", e.seq))
+								cl = append(cl, "submit-with-change")
+							}
+						}))
+						cl = append(cl, "submit")
+						e.submitsPending = append(e.submitsPending, txs[len(txs)-1])
+					default: // withdrawal claim (XIN fee) for a finalized submit
+						xin := common.XINAssetId
+						fee := common.NewIntegerFromString("0.0001")
+						if len(e.submits) == 0 {
+							continue
+						}
+						ins := e.takeOuts(t, 1, &xin)
+						if len(ins) == 0 || ins[0].tx.Outputs[ins[0].idx].Amount.Cmp(fee) <= 0 {
+							e.outs = append(e.outs, ins...)
+							continue
+						}
+						ref := e.submits[rapid.IntRange(0, len(e.submits)-1).Draw(t, "claim_of")]
+						body := []byte(fmt.Sprintf("claim-%d", e.seq))
+						sig := e.net.Custodian.PrivateSpendKey.Sign(crypto.Blake3Hash(body))
+						txs = append(txs, e.spend(ins, []crypto.Hash{ref}, append(sig[:], body...), func(tx *common.Transaction, total common.Integer) {
+							tx.Outputs = append(tx.Outputs, &common.Output{Type: common.OutputTypeWithdrawalClaim, Amount: fee})
+							tx.AddOutputWithType(common.OutputTypeScript, []*common.Address{acct("claim_change")}, common.NewThresholdScript(1), total.Sub(fee), vpKSeed("c16-cl", e.seq))
+						}))
+						cl = append(cl, "claim")
+					}
 					continue
 				}
 				a := e.assets[rapid.IntRange(0, 2).Draw(t, "asset")]
@@ -165,7 +310,33 @@ func TestVP_C16_validated_finalizes(t *testing.T) {
 				}
 				a.used += amt
 				owner := rapid.IntRange(0, 3).Draw(t, "owner")
-				tx := e.net.Deposit(a.id, a.chain, a.key, common.NewInteger(amt), owner, fmt.Sprintf("0xc16-%d", e.seq), uint64(rapid.IntRange(0, 2).Draw(t, "dep_index")), e.seq)
+				chain, key := a.chain, a.key
+				if a.bound && rapid.IntRange(0, 5).Draw(t, "info_variant") == 0 {
+					// a deposit naming the bound asset id with slightly different asset
+					// information: nothing is demanded of validation, but whatever it
+					// lets through must be finalizable
+					switch rapid.IntRange(0, 3).Draw(t, "variant") {
+					case 0:
+						key = strings.ToUpper(key)
+					case 1:
+						key = strings.ToLower(key)
+					case 2:
+						key = key + " "
+					default:
+						chain = common.EthereumAssetId
+						if a.chain == chain {
+							chain = common.BitcoinAssetId
+						}
+					}
+					if key != a.key || chain != a.chain {
+						freeform = true
+						cl = append(cl, "deposit-info-variant")
+					}
+				}
+				tx := e.net.Deposit(a.id, chain, key, common.NewInteger(amt), owner, fmt.Sprintf("0xc16-%d", e.seq), uint64(rapid.IntRange(0, 2).Draw(t, "dep_index")), e.seq)
+				if freeform {
+					a.used -= amt // not counted unless it really gets finalized (it never should)
+				}
 				if pendDeposits[a.id] > 0 {
 					sameAssetPending = true
 				}
@@ -182,7 +353,7 @@ func TestVP_C16_validated_finalizes(t *testing.T) {
 				cl = append(cl, "pending-deposits-same-asset")
 			}
 			s := e.snapshotFor(t, txs)
-			if rapid.IntRange(0, 3).Draw(t, "defer") == 0 {
+			if !freeform && rapid.IntRange(0, 3).Draw(t, "defer") == 0 {
 				// validated on the ordinary path now (locks, bodies), finalized by a later step
 				s.Hash = s.PayloadHash()
 				ok, _ := e.validate(s, txs, false)
@@ -198,6 +369,11 @@ func TestVP_C16_validated_finalizes(t *testing.T) {
 				t.Fatalf("snapshot %s whose %d members all validated could not be finalized: finalized=%v err=%v panic=%v", s.Hash, len(txs), fin, err, pan)
 			}
 			if !ok {
+				if freeform {
+					// a member that validation is free to refuse was refused
+					c.Case(s.Hash.String(), true, append(cl, "variant-refused")...)
+					continue
+				}
 				t.Fatalf("model-valid snapshot members rejected by validation: %v", verr)
 			}
 			if back, _ := e.k.Node.persistStore.ReadSnapshot(s.Hash); back == nil {
@@ -206,10 +382,8 @@ func TestVP_C16_validated_finalizes(t *testing.T) {
 			for _, tx := range txs {
 				if tx.DepositData() != nil {
 					pendDeposits[tx.Asset]--
-					e.outs = append(e.outs, vpC16Out{tx, vpC16Owner(e, tx)})
-				} else {
-					e.outs = append(e.outs, vpC16Out{tx, vpC16Owner(e, tx)})
 				}
+				e.noteFinalized(tx)
 			}
 			c.Case(s.Hash.String(), len(txs) >= 2 || sameAssetPending, cl...)
 			c.Sample(map[string]any{"members": len(txs), "classes": cl, "round": s.RoundNumber, "chain": s.NodeId.String()[:8]})
